@@ -25,7 +25,7 @@ PIPELINE = ['build_log', 'build', 'clean', 'clparser', 'dyndep', 'dyndep_parser'
             'graphviz', 'disk_interface']
 
 CXXFLAGS = ['-std=c++17', '-O1', '-DNDEBUG', '-DUSE_PPOLL=1', '-fno-exceptions', '-fno-rtti', '-fno-vectorize',
-            '-fno-slp-vectorize', '-fno-unroll-loops', '-fno-builtin-memchr', '-Wno-everything']
+            '-fno-slp-vectorize', '-fno-unroll-loops', '-fno-builtin-memchr', '-Wno-everything', '-Werror=extra-tokens']
 
 def run(cmd, **kw):
     r = subprocess.run(cmd, stdout=subprocess.PIPE, stderr=subprocess.STDOUT, text=True, **kw)
